@@ -82,6 +82,9 @@ def specs(tier, seed):
         sess = {"qtype": None, "downenc": None, "lazy": rng.choice([0, 1])}
         if i % 3 == 2:
             sess["occupy"] = 10 + (i // 3) % 6      # userid 10..15: a hex LETTER leads every data query name
+        elif i % 3 == 1:
+            # the client's slot had an earlier tenant (clean path: Base128 both ways, immediate mode, large fragments)
+            sess["prior"] = True
         if forced:
             sess["qtype"] = rng.choice(TYPEORDER)
             sess["downenc"] = rng.choice([None, "Base32", "Base64", "Base64u", "Base128", "Raw"])
